@@ -34,6 +34,7 @@ class Parser:
         self.the_environments = {}
         self.mathparser = mathparser.MathParser(self)
         self.unknowns = []
+        self.extracted = []
         self.latex = ''
 
         # used by expand_item():
@@ -512,7 +513,12 @@ class Parser:
     #   generate string from token sequence, with macro expansion
     #
     def get_text_expanded(self, toks):
+        # the tokens are only expanded to inspect their text: text flows
+        # extracted on the way (\footnote, ...) must not be kept, the caller
+        # may expand the same tokens again for the output
+        n_extr = len(self.extracted)
         toks = self.expand_sequence(scanner.Buffer(toks.copy()))
+        del self.extracted[n_extr:]
         return self.get_text_direct(toks)
 
     #   remove all blank text lines, which contain at least one ActionToken
